@@ -154,7 +154,7 @@ func genReconn(r *Rng, prop string) *Scenario {
 	cfg.LatB2CUs = r.between(20, 300)
 	cfg.DialLatUs = r.between(10, 200)
 	cfg.ReconnBaseUs = r.pickI(500, 1000, 2000, 3000)
-	cfg.ReconnMaxUs = cfg.ReconnBaseUs * r.pickI(1, 2, 4, 8, 16)
+	cfg.ReconnMaxUs = cfg.ReconnBaseUs * r.pickI(2, 3, 4, 5, 6, 7, 8, 11, 13, 16, 24) / 2 // also maxima that are no power-of-two multiple of the base
 	cfg.BrokerMethod = r.pick("A", "B")
 	cfg.InitIDs = spacedInitIDs(r, 12)
 	cfg.AutoPubRel = true
@@ -408,6 +408,20 @@ func genReconn(r *Rng, prop string) *Scenario {
 		}
 		if prop == "C16" && r.chance(0.3) {
 			sc.Ops = append(sc.Ops, Op{AtUs: r.between(0, lastOp+maxBackoff), Actor: -1, Kind: "close"})
+		}
+	}
+
+	// buggify: park a random subset of the H2 sites (only where the oracles are
+	// liveness-at-judgement or ordering rules; C11/C13/C18 time their oracles to
+	// the fake instant of a cause and stay yield-free)
+	switch prop {
+	case "C01", "C02", "C03", "C08", "C09", "C12", "C16", "C17":
+		if r.chance(0.25) {
+			sites := []string{"reconn.afterDial", "reconn.afterSetClient", "reconn.afterConnect", "reconn.keepAliveFailed", "reconn.connLost", "reconn.disconnectSeen", "retry.afterTask", "base.afterServe", "base.beforeClosedState", "pub.afterPubRec"}
+			cfg.Yields = map[string]int64{}
+			for i := 0; i < int(r.between(1, 3)); i++ {
+				cfg.Yields[sites[r.IntN(len(sites))]] = r.pickI(10, 100, 500, 2000)
+			}
 		}
 	}
 
